@@ -6,17 +6,17 @@ CONSTANTS
   ElasticityMax = 0
   DenominatorMax = 0
   MinGasPrices = {}
-  InitBases = {"0", "7", "20"}
+  InitBases = {"7", "20"}
   InitMaxGases = {"-1", "24"}
-  ParamSets <- MC_ParamSets
+  ParamSets <- MC_ParamSets_quick
   Gases = {"0", "6", "24"}
   Useds = {"0", "5", "24"}
-  SetMaxGases = {"8", "0"}
+  SetMaxGases = {"8"}
   SetBases = {"1"}
   MaxAnte = 2
-  MaxBlocks = 6
+  MaxBlocks = 4
   MaxSets = 1
-  MaxBounds = 0
+  MaxBounds = 3
   MaxLen = 0
   Defects = {}
 INVARIANT MInv_Shape
